@@ -85,12 +85,12 @@ def coq_makefile():
         sh(["coq_makefile", "-f", "_CoqProject", "-o", "Makefile"], cwd=COQ, check=True)
 
 
-def coq_make(targets=None, timeout=1500):
+def coq_make(targets=None, timeout=1500, keep_going=False):
     """Full .vo build of the given targets (default: everything). Returns (ok, log)."""
     coq_makefile()
     os.makedirs(os.path.join(OCAML, "gen"), exist_ok=True)
     os.makedirs(os.path.join(COQ, "Gen"), exist_ok=True)
-    args = ["make", "-j16"] + (targets or [])
+    args = ["make", "-j16"] + (["-k"] if keep_going else []) + (targets or [])
     rc, out = sh(args, timeout=timeout, cwd=COQ)
     return rc == 0, out
 
